@@ -4,6 +4,7 @@ import (
 	"database/sql/driver"
 	"encoding/hex"
 	"fmt"
+	"math"
 	"math/big"
 	"strings"
 
@@ -50,6 +51,14 @@ func runFormat(d0 *apd.Decimal) string {
 			rs = append(rs, reparse(o))
 		}
 		return strings.Join(hs, " ") + " | " + strings.Join(rs, " ")
+	})
+}
+
+// extreme exponents (beyond the package limits, up to the int32 range): only the scientific forms
+func runFormatExtreme(d0 *apd.Decimal) string {
+	return guard("fx "+encDec(d0), func() string {
+		d := clone(d0)
+		return hx(d.Text('G')) + " " + hx(d.Text('E')) + " " + hx(d.String()) + " " + hx(fmt.Sprintf("%e", d))
 	})
 }
 
@@ -285,6 +294,16 @@ func init() {
 		for i := 0; i < n; i++ {
 			switch r.intn(10) {
 			case 0, 1, 2:
+				if r.coin(4) {
+					// any Decimal can be formatted: exponents up to the int32 range (always scientific form)
+					c := r.coeffShape(r.rangeI(1, 30))
+					if c.Sign() == 0 {
+						c = big.NewInt(7)
+					}
+					e := []int{math.MaxInt32, math.MaxInt32 - r.intn(40), math.MinInt32, math.MinInt32 + r.intn(40), 1 << 30, -(1 << 30), 100001, -100050}[r.intn(8)]
+					emit(runFormatExtreme(mkDec(apd.Finite, r.coin(50), c, e)))
+					continue
+				}
 				emit(runFormat(r.textDec()))
 			case 3, 4, 5:
 				s := r.grammarString()
@@ -329,6 +348,7 @@ func init() {
 		return string(b)
 	}
 	replayers["fm"] = func(f []string) { emit(runFormat(decDec(f[1]))) }
+	replayers["fx"] = func(f []string) { emit(runFormatExtreme(decDec(f[1]))) }
 	replayers["ps"] = func(f []string) { emit(runParse(unhex(f[1]))) }
 	replayers["cd"] = func(f []string) { emit(runCompose(decDec(f[1]))) }
 	replayers["fv"] = func(f []string) {
